@@ -232,6 +232,7 @@ pub fn run_hostile_dir(cfgs: &[String], out_dir: &Path) -> Value {
             let _ = std::os::unix::fs::symlink(".", dir.join("self"));
         }
         let mut ops = vec![];
+        let mut occupied: Vec<Value> = vec![];
         let mut rec = |op: &str, c: &str| ops.push(json!({"op":op,"c":c}));
         let root = &w.root;
         rec("read_dir(root)", cls(guard(|| root.read_dir().map(|it| it.count()))));
@@ -247,7 +248,15 @@ pub fn run_hostile_dir(cfgs: &[String], out_dir: &Path) -> Value {
             rec(&format!("read_dir({name})"), cls(guard(|| p.read_dir().map(|it| it.take(50).count()))));
             rec(&format!("open_file({name})"), cls(guard(|| p.open_file().map(|mut h| { let mut b = vec![]; let _ = h.read_to_end(&mut b); }))));
             rec(&format!("read_to_string({name})"), cls(guard(|| p.read_to_string())));
-            rec(&format!("create_dir({name})"), cls(guard(|| p.create_dir())));
+            let cd = guard(|| p.create_dir());
+            if let Ok(Err(e)) = &cd {
+                // C12: an occupied create_dir target (here: by a symbolic link) is file-exists / directory-exists,
+                // labelled with the caller's path
+                occupied.push(json!({"op": format!("create_dir({name})"), "k": class_of(e), "ep_ok": e.path() == p.as_str()}));
+            } else if let Ok(Ok(())) = &cd {
+                occupied.push(json!({"op": format!("create_dir({name})"), "k": "ok", "ep_ok": true}));
+            }
+            rec(&format!("create_dir({name})"), cls(cd));
             rec(&format!("create_dir_all({name}/x)"), cls(guard(|| p.join("x").and_then(|q| q.create_dir_all()))));
             rec(&format!("create_file({name})"), cls(guard(|| p.create_file().map(|mut h| h.write_all(b"y")))));
             rec(&format!("append_file({name})"), cls(guard(|| p.append_file().map(|mut h| h.write_all(b"y")))));
@@ -262,7 +271,10 @@ pub fn run_hostile_dir(cfgs: &[String], out_dir: &Path) -> Value {
         rec("remove_dir_all(d3)", cls(guard(|| root.join("d3").unwrap().remove_dir_all())));
         rec("remove_dir_all(d)", cls(guard(|| root.join("d").unwrap().remove_dir_all())));
         rec("walk_dir(root) again", cls(guard(|| root.walk_dir().map(|it| it.take(200).count()))));
+        // only where the path layer talks to the physical directory directly or through altroots
+        let direct = !cfg.contains("ovl");
         out.begin(&json!({"ev":"hostile","kindtag":"hostiledir","cfg":cfg,"arg":"<directory content prepared with std::fs: non-UTF-8 name, dangling symlink, symlink loop>","prefix":[],
+            "occupied": if direct { occupied } else { vec![] },
             "join":{"c":"ok","path":""},"ops":ops,"ucalls":[],"outside_before":[],"outside_after":[],"leak":false,"shape":{"dotdot":false,"dslash":false,"abs":false}}));
         n += 1;
     }
